@@ -15,6 +15,8 @@ for d in sorted((V / "seeded").iterdir()):
     if not mp.exists() or d.name not in summary:
         continue
     meta = json.loads(mp.read_text())
+    if "detected" not in meta:          # behaviour-preserving refactors are handled by tools/benign_eval.sh
+        continue
     s = summary[d.name]
     old = meta.get("detected")
     if "does not apply" in s:
